@@ -22,6 +22,10 @@ def install(ext, schema):
     m[('EioServer', 'generate_id')] = eio_generate_id
     m[('EioServer', 'send')] = eio_server_send
     m[('EioServer', 'send_packet')] = eio_server_send_packet
+    m[('EioServer', 'start_background_task')] = eio_start_background_task
+    m[('EioClient', 'start_background_task')] = eio_start_background_task
+    m[('Task', 'add_done_callback')] = lambda eng, ctx, args, kwargs, me: iter([(ctx, S(NONE))])
+    m[('Task', 'join')] = lambda eng, ctx, args, kwargs, me: iter([(ctx, S(NONE))])
 
 
 def eio_packet_ctor(eng, ctx, args, kwargs):
@@ -60,3 +64,14 @@ def eio_server_send_packet(eng, ctx, args, kwargs):
     eio_sid, pkt = args.items()
     log_append(_C(eng, ctx), 'g', 'raw', key=eng.to_v(ctx, eio_sid), frame=pkt)
     yield ctx, S(NONE)
+
+
+def eio_start_background_task(eng, ctx, args, kwargs):
+    """start_background_task(f, *args): f(*args) runs exactly once; its exceptions do not reach the caller."""
+    eng.ext.note('engine.io start_background_task(f, *args) runs f(*args) exactly once (modelled inline: scheduling and the '
+                 'time at which it runs are not modelled); an exception in the task does not propagate to the starter')
+    from pyvc.vals import PySeq, Fixed
+    f = args.segs[0].items[0]
+    rest = PySeq(eng._drop_front(args, 1), 'tuple')
+    for c, r in eng.call(ctx, f, rest, dict(kwargs)):
+        yield c, c.alloc('rec', {}, cls='Task')
